@@ -139,7 +139,7 @@ func main() {
 	}
 }
 
-func indexArg(arg string, opts index.Options, ignore map[string]struct{}) error {
+func indexArg(arg string, opts index.Options, ignore map[string]struct{}) (retErr error) {
 	dir, err := filepath.Abs(filepath.Clean(arg))
 	if err != nil {
 		return err
@@ -156,9 +156,13 @@ func indexArg(arg string, opts index.Options, ignore map[string]struct{}) error 
 	if err != nil {
 		return err
 	}
-	// we don't need to check error, since we either already have an error, or
-	// we returning the first call to builder.Finish.
-	defer builder.Finish() // nolint:errcheck
+	// Finish must also run when indexing fails, to clean up. An error that
+	// stopped us from handing over all documents is recorded first: without it
+	// Finish would install an index that lacks them.
+	defer func() {
+		builder.MarkFailed(retErr)
+		builder.Finish() // nolint:errcheck
+	}()
 
 	branches := make([]string, 0, len(opts.RepositoryDescription.Branches))
 	for _, branch := range opts.RepositoryDescription.Branches {
